@@ -147,13 +147,27 @@ with wf_arms (a : arms) : bool :=
 (** What the parser needs in addition (the domain of C14_parse_full):
     indentation is blanks; command lines, conditions and word lists are
     non-empty, trimmed, on one line; a command line does not begin with a
-    block keyword; conditions and word lists hold no `;`; loop variables are
+    block keyword; conditions and word lists hold no `; then` / `; do`; loop variables are
     identifiers; every body has at least one line. *)
 Definition is_blank (c : char) : bool := (c =? 32) || (c =? 9).
 Definition wfp_ind (ind : str) : bool := forallb is_blank ind.
 Definition wfp_text (t : str) : bool :=
   negb (is_empty t) && forallb (fun c => negb (c =? 10) && negb (c =? 13)) t && str_eqb (trim t) t.
-Definition no_semi (t : str) : bool := forallb (fun c => negb (c =? 59)) t.
+(** a condition / word list may hold `;` (an and-or list) but no `; then` / `; do` *)
+Fixpoint drop_blanks (t : str) : str :=
+  match t with
+  | c :: r => if (c =? 32) || (c =? 9) then drop_blanks r else t
+  | [] => []
+  end.
+Fixpoint no_semi (t : str) : bool :=
+  match t with
+  | [] => true
+  | c :: r =>
+      (if c =? 59
+       then negb (match strip_prefix [116; 104; 101; 110] (drop_blanks r) with Some _ => true | None => false end
+                  || match strip_prefix [100; 111] (drop_blanks r) with Some _ => true | None => false end)
+       else true) && no_semi r
+  end.
 Definition has_prefix (p t : str) : bool := match strip_prefix p t with Some _ => true | None => false end.
 Definition starts_kw (line : str) : bool :=
   has_prefix s_if line || has_prefix s_for line || has_prefix s_elseif line || has_prefix s_while line
